@@ -59,11 +59,15 @@ class Ctx:
         if devs:
             # the reference model reproduced the observation exactly under these named deviations
             by_dev = {f.get('dev'): f for f in self.findings if f['status'] == 'open' and f.get('dev')}
-            if all(d in by_dev for d in devs):
-                for d in devs:
+            hit = [d for d in devs if d in by_dev]
+            tolerated = set()
+            for d in hit:
+                tolerated.update(by_dev[d].get('tolerates', []))
+            if hit and all(d in by_dev or d in tolerated for d in devs):
+                for d in hit:
                     fid = by_dev[d]['id']
                     self.known_hits[fid] = self.known_hits.get(fid, 0) + 1
-                return by_dev[devs[0]]['id']
+                return by_dev[hit[0]]['id']
         fid = match_finding(self.findings, features)
         if fid is not None:
             self.known_hits[fid] = self.known_hits.get(fid, 0) + 1
@@ -80,8 +84,9 @@ class Ctx:
                 f = v['features']
                 key = tuple((k, str(f.get(k))) for k in os.environ.get('VERIF_DEBUG_KEYS', 'clause,codec,rules,why,def,chunk,kind,expl_over_noindef,has_real10,trailing,st,exc').split(',') if k in f)
                 groups.setdefault(key, []).append(v)
-            for key, vs in sorted(groups.items(), key=lambda kv: -len(kv[1])):
-                print('GROUP n=%d %s\n     e.g. %s' % (len(vs), ' '.join('%s=%s' % kv for kv in key), vs[0]['what'][:300]))
+            for key, vs in sorted(groups.items(), key=lambda kv: -len(kv[1]))[:int(os.environ.get('VERIF_DEBUG_TOP', '30'))]:
+                print('GROUP n=%d %s | %s' % (len(vs), ' '.join('%s=%s' % kv for kv in key), vs[0]['what'][:170]))
+            print('GROUPS total=%d' % len(groups))
         for f in self.findings:
             if f['status'] == 'open' and f['id'] in self.known_hits:
                 print('KNOWN-FINDING: property=%s %s: %s (%d cases)' % (
